@@ -191,6 +191,8 @@ def main(argv):
         if time.time() - last_flush > 3:
             flush()
             last_flush = time.time()
+    if not ctx.samples:
+        ctx.samples = [{"case": c} for c in mine[:2]]
     if hasattr(prop, "teardown_worker"):
         try:
             prop.teardown_worker(ctx, tier, seed)
